@@ -20,7 +20,7 @@ func init() {
 	for _, w := range c13Workloads {
 		floor = append(floor, "workload."+w)
 	}
-	floor = append(floor, "shared.where", "shared.subquery", "shared.exists", "shared.in-subquery", "shared.order", "shared.group", "shared.distinct", "shared.marker-between", "shared.cte-wrapped", "par.join", "par.join-fail", "par.async", "par.spinasync", "par.await-async", "par.async-deep", "par.join-like", "cached.open-range", "reader.fn-spelling")
+	floor = append(floor, "shared.where", "shared.subquery", "shared.exists", "shared.in-subquery", "shared.order", "shared.group", "shared.distinct", "shared.marker-between", "shared.cte-wrapped", "par.join", "par.join-fail", "par.async", "par.spinasync", "par.await-async", "par.async-deep", "par.join-like", "par.join-stateful", "cached.open-range", "reader.fn-spelling")
 	fw.Register(&fw.Prop{
 		ID:    "C13",
 		Title: "Concurrent queries are free of data races, crashes and cross-talk",
@@ -215,7 +215,14 @@ func c13Run(c *fw.Case) {
 		for g := 0; g < G; g++ {
 			for i := 0; i < iters; i++ {
 				var sql, feat string
-				switch c.Intn(8) {
+				switch c.Intn(9) {
+				case 8:
+					// an ON expression that touches state of the query: a ONCE memo, pending
+					// work of a subquery, a CTE of the scope that has not been read yet
+					jn := gen.Pick(c.R, []string{"PARALLEL JOIN", "PARALLEL LEFT JOIN", "PARALLEL STRAIGHT_JOIN"})
+					on := gen.Pick(c.R, []string{"x.n1 = y.un1 AND ONCE.VFONCE(true, 1, 1)", "x.n1 >= y.un1 AND EXISTS (SELECT e FROM `x.arr` WHERE e >= 0)", "x.n1 = y.un1 OR EXISTS (SELECT 1 FROM `<-.c9`)",
+						"x.n1 >= y.un1 AND x.n1 IN (SELECT un1 FROM `<-u1`)", "x.s1 = y.us1 OR VF(true, 1, 2)"})
+					sql, feat = "WITH c9 AS (SELECT rid FROM t1) SELECT x.rid, y.un1 FROM t1 x "+jn+" u1 y ON "+on, "par.join-stateful"
 				case 6:
 					// ASYNC calls, not wrapped in AWAIT, below the second FROM dimension
 					sql, feat = gen.Pick(c.R, []string{"SELECT rid, ASYNC.VF(a, rid, 1) AS r FROM cube", "SELECT rid, ASYNC.VF(b, rid, 2) AS r, SPINASYNC.VF(a, rid, 1) FROM cube WHERE a >= 0", "SELECT a, ASYNC.VF(a, 1, 1) AS r FROM mm"}), "par.async-deep"
